@@ -504,16 +504,31 @@ func mergeDirectiveListsEqual(list1, list2 ast.DirectiveList) error {
 		return errors.New("there were an inconsistent number of directives")
 	}
 
-	// compare each argument to its counterpart in the other list
-	for _, arg1 := range list1 {
-		arg2 := list2.ForName(arg1.Name)
-		if arg2 == nil {
-			return fmt.Errorf("could not find the directive with name %s", arg1.Name)
+	// a directive can be applied more than once (repeatable directives), so looking a directive up by
+	// its name is not enough: every application in the first list has to be paired with an application
+	// of its own in the second list. The lists have the same length so the pairing covers both.
+	matched := make([]bool, len(list2))
+	for _, directive1 := range list1 {
+		found := false
+		var mismatch error
+		for i, directive2 := range list2 {
+			if matched[i] || directive2.Name != directive1.Name {
+				continue
+			}
+			// if the 2 applications are not the same
+			if err := mergeDirectiveEqual(directive1, directive2); err != nil {
+				mismatch = err
+				continue
+			}
+			matched[i] = true
+			found = true
+			break
 		}
-
-		// if the 2 arguments are not the same
-		if err := mergeDirectiveEqual(arg1, arg2); err != nil {
-			return err
+		if !found {
+			if mismatch != nil {
+				return mismatch
+			}
+			return fmt.Errorf("could not find the directive with name %s", directive1.Name)
 		}
 	}
 
